@@ -297,6 +297,17 @@ impl ImplState {
                 let x = self.uci.verif_searcher().verif_repetition_xor();
                 format!("running {} rep={}:{}", board_text(&b), n, x)
             }
+            // a depth-limited search on the engine's OWN searcher and current board (game history as recorded by the position command)
+            "eng.go" if t.len() == 2 => match t[1].parse::<u8>() {
+                Ok(d) => {
+                    let b = *self.uci.verif_board();
+                    let s = self.uci.verif_searcher();
+                    let (score, mv) = s.find_best_move(&b, d, None);
+                    format!("{} {} nodes={} rep={}", score, opt_mv_text(&mv), s.verif_timer().nodes(), s.verif_repetition_len())
+                }
+                _ => "bad-op".into(),
+            },
+            "eng.judge1" if t.len() == 2 => "ok".into(),
             "eng.isdraw" if t.len() == 2 => match parse_board(t[1]) {
                 Some(b) => self.uci.verif_searcher().verif_is_repetition_draw(&b).to_string(),
                 None => "bad-op".into(),
